@@ -322,6 +322,17 @@ std::string jvh::handle(const toks_t& t)
         if (t[2] == "o") return push_chunks<ojson>(text, {}, o);
         throw bad_op{};
     }
+    if (op == "esc")
+    {
+        std::string in = xarg(t.at(4));
+        std::string out;
+        try
+        {
+            jsoncons::detail::escape_string(in.data(), in.size(), t.at(2) == "1", t.at(3) == "1", out);
+        }
+        catch (const jsoncons::ser_error&) { return "err"; }
+        return "ok x" + hex(out);
+    }
     if (op == "events") return push_events(xarg(t.at(3)), parse_opts(t.at(2)));
     if (op == "deliver")
     {
